@@ -94,6 +94,26 @@ theorem marked_element_id (file : Str) (n : Nat) (tag : Str) (attrs : List Attr)
   simp only [assignIdsNode, h, ↓reduceIte]
   exact ⟨_, _, rfl, (ids_counter_monotone file).2 (n + 1) kids⟩
 
+/-- splitting at the first `#`: two texts `a#s`, `b#t` whose heads `a`, `b` contain no `#` are equal only if the heads are -/
+theorem head_before_hash : ∀ (a b s t : Str), '#' ∉ a → '#' ∉ b → a ++ '#' :: s = b ++ '#' :: t → a = b
+  | [], [], _, _, _, _, _ => rfl
+  | [], y :: b, s, t, _, hb, h => by
+    simp only [List.nil_append, List.cons_append, List.cons.injEq] at h
+    exact absurd h.1.symm (fun e => hb (by simp [e]))
+  | x :: a, [], s, t, ha, _, h => by
+    simp only [List.nil_append, List.cons_append, List.cons.injEq] at h
+    exact absurd h.1 (fun e => ha (by simp [e]))
+  | x :: a, y :: b, s, t, ha, hb, h => by
+    simp only [List.cons_append, List.cons.injEq] at h
+    rw [h.1, head_before_hash a b s t (fun hm => ha (by simp [hm])) (fun hm => hb (by simp [hm])) h.2]
+
+/-- THE ID NAMES THE FILE THE ELEMENT IS WRITTEN IN: ids assigned in two different files never coincide, whatever the ordinal positions
+    (file names contain no `#`) — so two different components cannot suppress each other's v-once element, and one component reached
+    through two different parents is one id (its own file's), emitted once -/
+theorem ids_of_different_files_differ (f1 f2 : Str) (n m : Nat) (h1 : '#' ∉ f1) (h2 : '#' ∉ f2) (hne : f1 ≠ f2) :
+    f1 ++ '#' :: natToStr (n + 1) ≠ f2 ++ '#' :: natToStr (m + 1) :=
+  fun h => hne (head_before_hash f1 f2 _ _ h1 h2 h)
+
 /-! non-vacuity: two marked elements in one file get different ids; the same element in two files too -/
 example : assignSeenAttrs (S "p") [.elem (S "i") [(S "v-once", [])] [], .elem (S "b") [(S "v-once", [])] []] =
     [.elem (S "i") [(S "v-once", []), (S "v-once-id", S "p#1")] [], .elem (S "b") [(S "v-once", []), (S "v-once-id", S "p#2")] []] := by rfl
